@@ -1,12 +1,137 @@
 import Driver.Util
-/- Line-protocol handler for the `timer` model (stub until the model exists). -/
+import Munge.Model.Timer
+/- Line-protocol handler for the `timer` model (C18); the C side is harness/h_timer.c. -/
 namespace Driver.Timer
+open Munge Munge.Timer
+
+/-- scripted callback: p plain, c cancels id a1, s sets a plain timer a1 ms ahead, a sets a plain
+    timer at (a1,a2), r re-arms itself a1 ms ahead, x sets a timer a1 ms ahead and cancels it again -/
+structure Desc where
+  kind : Char
+  a1 : Int
+  a2 : Int
 
 structure St where
-  dummy : Unit := ()
+  sys : Sys := {}
+  descs : Array Desc := #[]
 
-def init : St := {}
+def init : St := { sys := settle (fun _ _ => []) 4 {} }
 
-def step (st : St) (_args : List String) : St × String := (st, "bad-op")
+def showTs (t : TS) : String := s!"{t.1}.{t.2}"
+
+def actsOf (descs : Array Desc) (s : State) (t : Tm) : List Act × Array Desc :=
+  match descs[t.cb]? with
+  | none => ([], descs)
+  | some d =>
+    let plain : Desc := ⟨'p', 0, 0⟩
+    if d.kind == 'c' then ([.cancel d.a1], descs)
+    else if d.kind == 's' then ([.setRel d.a1 descs.size], descs.push plain)
+    else if d.kind == 'a' then ([.setAbs (d.a1, d.a2) descs.size], descs.push plain)
+    else if d.kind == 'r' then ([.setRel d.a1 t.cb], descs)
+    else if d.kind == 'x' then ([.setRel d.a1 descs.size, .cancel (bumpId s.nextId)], descs.push plain)
+    else ([], descs)
+
+/-- return values of the requests a callback makes, in the harness's notation -/
+def actResults (s : State) : List Act → String
+  | [] => ""
+  | a :: r =>
+    let (s1, rv, _) := applyAct s a
+    (match a with
+     | .cancel _ => s!":c{rv}"
+     | _ => s!":s{rv}") ++ actResults s1 r
+
+/-- run the timer thread until it blocks; collects the callback log -/
+def settleLog : Nat → Sys → Array Desc → List String → Sys × Array Desc × List String
+  | 0, y, ds, lg => (y, ds, lg)
+  | n + 1, y, ds, lg =>
+    if blocked y.thr then (y, ds, lg) else
+    match y.st.batch with
+    | t :: _ =>
+      let (acts, ds') := actsOf ds y.st t
+      let e := s!"k{t.cb}@{showTs y.st.now}" ++ actResults (dispatch y.st) acts
+      -- the model's own dispatch log is not needed here (the entries are rendered as they happen): keep it empty
+      let y' := sysStep (fun _ _ => acts) y .thread
+      settleLog n { y' with st := { y'.st with log := [] } } ds' (e :: lg)
+    | [] => settleLog n (sysStep (fun _ _ => []) y .thread) ds lg
+
+def showState (y : Sys) (lg : List String) : String :=
+  let pend := y.st.active.map fun t => s!"{t.id}/k{t.cb}@{showTs t.ts}"
+  let thr := match y.thr with
+    | .running => "R"
+    | .waitEmpty => "W"
+    | .timedWait dl => s!"T:{showTs dl}"
+  s!" log=[{String.intercalate "," lg.reverse}] pend=[{String.intercalate "," pend}] thr={thr}"
+
+/-- thread steps per operation; a timer that re-arms itself in the past spins forever (the harness reports HANG) -/
+def fuel : Nat := 4000
+
+def finish (_st : St) (y : Sys) (ds : Array Desc) (pre : String) : St × String :=
+  let (y', ds', lg) := settleLog fuel y ds []
+  ({ sys := y', descs := ds' }, pre ++ showState y' lg)
+
+def parseKind : List String → Option Desc
+  | ["p"] => some ⟨'p', 0, 0⟩
+  | ["c", a] => (intArg a).map fun x => ⟨'c', x, 0⟩
+  | ["s", a] => (intArg a).map fun x => ⟨'s', x, 0⟩
+  | ["r", a] => (intArg a).map fun x => ⟨'r', x, 0⟩
+  | ["x", a] => (intArg a).map fun x => ⟨'x', x, 0⟩
+  | ["a", a, b] => match intArg a, intArg b with
+    | some x, some y => some ⟨'a', x, y⟩
+    | _, _ => none
+  | _ => none
+
+def doSet (st : St) (a : Act) : St × String :=
+  let (s', id, sig) := applyAct st.sys.st a
+  let y : Sys := { st := s', thr := if sig then .running else st.sys.thr }
+  finish st y st.descs s!"id={id} k={st.descs.size - 1}"
+
+def step (st : St) (args : List String) : St × String :=
+  match args with
+  | ["reset"] =>
+    let y : Sys := { st := { nextId := st.sys.st.nextId }, thr := .running }
+    finish st y #[] "ok"
+  | "seta" :: s :: n :: k =>
+    match intArg s, intArg n, parseKind k with
+    | some s, some n, some d =>
+      let st := { st with descs := st.descs.push d }
+      doSet st (.setAbs (s, n) (st.descs.size - 1))
+    | _, _, _ => (st, "bad-op")
+  | "setr" :: ms :: k =>
+    match intArg ms, parseKind k with
+    | some ms, some d =>
+      let st := { st with descs := st.descs.push d }
+      doSet st (.setRel ms (st.descs.size - 1))
+    | _, _ => (st, "bad-op")
+  | ["cancel", id] =>
+    match intArg id with
+    | some id =>
+      let (s', rc, sig) := cancel st.sys.st id
+      finish st { st := s', thr := if sig then .running else st.sys.thr } st.descs s!"rc={rc}"
+    | none => (st, "bad-op")
+  | ["adv", s, n] =>
+    match intArg s, intArg n with
+    | some s, some n => finish st (sysStep (fun _ _ => []) st.sys (.tick (s, n))) st.descs "ok"
+    | _, _ => (st, "bad-op")
+  | ["setid", n] =>
+    match intArg n with
+    | some n => finish st { st.sys with st := { st.sys.st with nextId := n } } st.descs "ok"
+    | none => (st, "bad-op")
+  | ["guard", c, t] =>
+    match intArg c, intArg t with
+    | some c, some t =>
+      if c != 0 && t != 0 then (st, "bad-op") else
+      let o := Gen.Timer.timer_set_guard c t
+      finish st st.sys st.descs s!"rc={o.ret} errno={(o.written "errno").getD 0}"
+    | _, _ => (st, "bad-op")
+  | ["le", a, b, c, d] =>
+    match ints [a, b, c, d] with
+    | some [a, b, c, d] => (st, s!"{(Gen.Timer.clock_is_timespec_le 1 1 a b c d).ret}")
+    | _ => (st, "bad-op")
+  | ["addms", s, n, ms] =>
+    match ints [s, n, ms] with
+    | some [s, n, ms] =>
+      (st, s!"rc={(Gen.Timer.clock_get_timespec 1 s n ms 0).ret} {showTs (addMs (s, n) ms)}")
+    | _ => (st, "bad-op")
+  | _ => (st, "bad-op")
 
 end Driver.Timer
